@@ -336,9 +336,11 @@ impl fmt::Display for FunctionDefinition {
             f.write_str("function ")?;
         }
         // A name ending with an unquoted `$` must not be directly followed by
-        // `(`, or the result would be parsed as a command substitution.
+        // `(`, or the result would be parsed as a command substitution. The
+        // `$` may also be the last character of the name of a tilde expansion.
         let separator = match self.name.units.last() {
             Some(WordUnit::Unquoted(TextUnit::Literal('$'))) => " ",
+            Some(WordUnit::Tilde { name, .. }) if name.ends_with('$') => " ",
             _ => "",
         };
         write!(f, "{}{}() {}", self.name, separator, self.body)
